@@ -553,27 +553,40 @@ func (s *SetOperation) Format(opts FormatOptions) string {
 	}
 	f := newFormatter(opts)
 	sb := f.sb
+	nested := nestedOptions(opts)
+	writeOperand := func(st Statement) {
+		if st == nil {
+			return
+		}
+		if fs, ok := st.(Formatter); ok {
+			sb.WriteString(fs.Format(nested))
+		} else {
+			sb.WriteString(stmtSQL(st))
+		}
+	}
 
-	if s.Left != nil {
-		if ls, ok := s.Left.(Formatter); ok {
-			sb.WriteString(ls.Format(nestedOptions(opts)))
-		} else {
-			sb.WriteString(stmtSQL(s.Left))
+	// A chain a UNION b UNION c ... is nested to the left. It is written from its innermost
+	// operation outwards into this one builder, so that every operand is copied once: formatting
+	// the left operand first and copying its text at every level cost a number of bytes quadratic
+	// in the number of operands.
+	chain := []*SetOperation{s}
+	for {
+		next, ok := chain[len(chain)-1].Left.(*SetOperation)
+		if !ok || next == nil {
+			break
 		}
+		chain = append(chain, next)
 	}
-	sb.WriteString(f.clauseSep())
-	op := s.Operator
-	if s.All {
-		op += " ALL"
-	}
-	sb.WriteString(f.kw(op))
-	sb.WriteString(f.clauseSep())
-	if s.Right != nil {
-		if rs, ok := s.Right.(Formatter); ok {
-			sb.WriteString(rs.Format(nestedOptions(opts)))
-		} else {
-			sb.WriteString(stmtSQL(s.Right))
+	writeOperand(chain[len(chain)-1].Left)
+	for i := len(chain) - 1; i >= 0; i-- {
+		sb.WriteString(f.clauseSep())
+		op := chain[i].Operator
+		if chain[i].All {
+			op += " ALL"
 		}
+		sb.WriteString(f.kw(op))
+		sb.WriteString(f.clauseSep())
+		writeOperand(chain[i].Right)
 	}
 
 	if opts.AddSemicolon {
